@@ -39,7 +39,8 @@ RULE = (
 )
 ASSUMPTIONS = [
     "geometric tolerance 1e-9 on the unit domain (lattice data exact; gmsh coordinates ~1e-13)",
-    "an exception of the mesher for a network is not a C25 verdict (class 'mesher refused')",
+    "every network of the alphabet is non-degenerate and is meshed by the reference tree; an exception of "
+    "the mesher is reported as a violation (import errors are harness errors)",
     "expected number of sides of a 1d-0d coupling in 2-d networks from exact rational arithmetic: "
     "2 if the point is interior to the fracture, 1 if it is an end point",
     "corner-touching fractures and fractures inside the domain boundary are not in the alphabet",
@@ -360,14 +361,20 @@ def _config(case):
 
 
 def run_case(case) -> Outcome:
+    import porepy  # noqa: F401  (an import failure is a harness error, never a verdict)
+
     out = Outcome()
     cfg = _config(case)
     for mesh in case["meshes"]:
         try:
             mdg = _mesh(case, mesh)
+        except (ImportError, SyntaxError, NameError):
+            raise
         except Exception as e:
-            out.ev(f"mesher refused/{mesh[0]}/{type(e).__name__}")
-            out.extra["mesher_refused"] = out.extra.get("mesher_refused", 0) + 1
+            # every network of the alphabet is non-degenerate (no overlaps, no fracture in
+            # the boundary, no corner contact) and meshes on the reference tree
+            out.violate("mesher raised on a valid lattice network", fracs=case["fracs"], mesh=mesh, error=repr(e)[:300])
+            out.ev("VIOLATION")
             continue
         try:
             P, info = _check_mdg(case, mdg)
